@@ -1,8 +1,8 @@
 package main
 
 import (
-	"strconv"
 	"sort"
+	"strconv"
 )
 
 // ------------------------------------------------------------------ linear forms over integer symbols
@@ -96,8 +96,8 @@ func (a Lin) key() string {
 // Cons is the constraint E ≥ 0.
 type Cons struct{ E Lin }
 
-func geq(a, b Lin) Cons { return Cons{a.add(b, -1)} }             // a ≥ b
-func leq(a, b Lin) Cons { return Cons{b.add(a, -1)} }             // a ≤ b
+func geq(a, b Lin) Cons { return Cons{a.add(b, -1)} }              // a ≥ b
+func leq(a, b Lin) Cons { return Cons{b.add(a, -1)} }              // a ≤ b
 func gt(a, b Lin) Cons  { return Cons{a.add(b, -1).addConst(-1)} } // a > b  (integers)
 func lt(a, b Lin) Cons  { return Cons{b.add(a, -1).addConst(-1)} } // a < b
 
@@ -425,7 +425,7 @@ func fmRefute(cs []Cons) bool {
 				a, b := p.E.T[best], -n.E.T[best]
 				g := gcd(a, b)
 				// (b/g)·p + (a/g)·n eliminates best
-				comb := p.E.scale(b / g).add(n.E, a/g)
+				comb := p.E.scale(b/g).add(n.E, a/g)
 				delete(comb.T, best)
 				var bad bool
 				next, bad = add(next, Cons{comb})
